@@ -73,7 +73,7 @@ func Run(c *core.Ctx, replay string) (*core.Result, error) {
 		progs = []*absprog.Prog{&rc.Prog}
 		seed = rc.Seed
 	} else {
-		progs = c02.Programs(c.Seed, nProg, func(o *absprog.Opts, rng *rand.Rand) { o.NoNamedRec = true; o.MixedArrays = true })
+		progs = c02.Programs(c.Seed, nProg, func(o *absprog.Opts, rng *rand.Rand) { o.NoNamedRec = true; o.MixedArrays = true; o.OddEnumValues = true })
 		for _, p := range progs {
 			addTable(p)
 		}
@@ -112,6 +112,13 @@ func Run(c *core.Ctx, replay string) (*core.Result, error) {
 		id++
 		rec := map[string]any{"ev": "script", "case": id, "prog": pb.Prog.ID, "syntax": "", "funcs": []any{}, "checks": []any{}}
 		script, perr := proj.ParsePgScript(sq.Text)
+		if perr != nil && strings.Contains(perr.Error(), "unterminated string") {
+			// not a limit of the parser: the script is not lexically valid SQL (judged by TracePg)
+			rec["syntax"] = "unterminated string"
+			recs = append(recs, rec)
+			refs[id] = ref{pb.Prog, ""}
+			continue
+		}
 		if perr != nil {
 			return nil, core.Inconcl("program %d: SQL output not understood by the PL/pgSQL parser: %v", pb.Prog.ID, perr)
 		}
